@@ -7,3 +7,7 @@ import "bwverif/rt"
 var Registry = map[string]*rt.Check{}
 
 func register(c *rt.Check) { Registry[c.ID] = c }
+
+// Aux holds functions that a case runs in a separate child process
+// (bwcheck -aux <name> args...).
+var Aux = map[string]func(args []string) int{}
